@@ -15,16 +15,16 @@ import (
 // Out collects, for one engine run, the case inputs, the implementation's observables,
 // the verdicts of the property oracle and statistics about the generated distribution.
 type Out struct {
-	engine  string
-	dir     string
-	cases   *bufio.Writer
-	impl    *bufio.Writer
-	oracle  *bufio.Writer
-	files   []*os.File
-	n       int
-	fails   int
-	hist    map[string]int
-	samples []interface{}
+	engine   string
+	dir      string
+	cases    *bufio.Writer
+	impl     *bufio.Writer
+	oracle   *bufio.Writer
+	files    []*os.File
+	n        int
+	fails    int
+	hist     map[string]int
+	samples  []interface{}
 	distinct map[string]struct{}
 }
 
